@@ -3,19 +3,26 @@
 //
 // A tree case has the packages par, par/sa, par/sb and oth. par and oth are always listed
 // under packages:, par is usually recursive, each sub-package is listed or only reached
-// through the recursion. Rules are written at a drawn subset of root / package config of any
-// listed package / Svc's interface config. The generator always plants one rule at a
-// non-root level together with a "bystander" mock that mentions the mapped type but is not
-// below that level, and a witness mock at that level.
+// through the recursion. In a listed package Svc and Other are, independently, selected by
+// the root's regex only, named under interfaces: with an empty entry, named with a config:
+// without replace-type, or named with rules of their own. Rules are written at a drawn
+// subset of root / package config of any listed package / interface config. The generator
+// always plants one rule at a non-root level together with a "bystander" mock that mentions
+// the mapped type but is not below that level, and a witness mock at that level; in three of
+// four cases with a recursive package that has rules, an interface named under interfaces:
+// of a listed sub-package mentions a type that package maps.
 //
-// Model (entry by entry, most specific level first): Svc's config > the package's own config
-// > root, and for a sub-package that is reached only through its recursive ancestor: the
-// ancestor's config > root. For a sub-package that is listed itself AND lies below a recursive
-// ancestor, the documentation is silent about what it takes from the ancestor ("inject those
-// packages into the config map"); three readings are admissible for such a mock as a whole:
-// nothing is inherited from the ancestor, the ancestor sits between package and root, or the
-// ancestor sits behind root. Everything else is strict; in particular a rule never acts on a
-// mock that is not at or below the level where it is written.
+// Model (entry by entry, most specific level first): the interface's config > the package's
+// own config > root, and for a sub-package that is reached only through its recursive
+// ancestor: the ancestor's config > root. A sub-package that is listed itself AND lies below
+// a recursive ancestor takes the ancestor's entries as well (RootConfig.Initialize merges the
+// parent into an existing entry explicitly, and a rule acts at the level where it is written
+// and below, however the interface below is selected); only the order of precedence between
+// the root and the ancestor for the same (package, type) entry is left open by the
+// documentation ("inject those packages into the config map"): ancestor before root or
+// ancestor behind root, one of the two for all such mocks of a run. Everything else is
+// strict; in particular a rule never acts on a mock that is not at or below the level where
+// it is written.
 package c13
 
 import (
@@ -69,6 +76,30 @@ func dropKey(rs []Rule, key string) []Rule {
 	}
 	return out
 }
+
+// mode and rules of one interface's entry under interfaces: (see TPkg).
+func (p *TPkg) mode(iface string) *string {
+	if iface == "Other" {
+		return &p.OtherMode
+	}
+	return &p.SvcMode
+}
+
+func (p *TPkg) irules(iface string) *[]Rule {
+	if iface == "Other" {
+		return &p.OtherRules
+	}
+	return &p.SvcRules
+}
+
+func (p *TPkg) meths(iface string) []progen.Meth {
+	if iface == "Other" {
+		return p.Other
+	}
+	return p.Svc
+}
+
+var ifaceNames = []string{"Svc", "Other"}
 
 type mockRef struct {
 	dir   string
@@ -131,9 +162,12 @@ func genTree(t *rapid.T, pool []cand) Case {
 			if rapid.Bool().Draw(t, "pkg-rules") {
 				p.Rules = genRules("pkg")
 			}
-			p.IfListed = rapid.Bool().Draw(t, "ifaces-listed")
-			if p.IfListed && rapid.IntRange(0, 2).Draw(t, "iface-rules") == 0 {
-				p.SvcRules = genRules("iface")
+			for _, in := range ifaceNames {
+				md := rapid.SampledFrom([]string{"", "null", "config", "rules"}).Draw(t, "iface-mode")
+				*p.mode(in) = md
+				if md == "rules" {
+					*p.irules(in) = genRules("iface")
+				}
 			}
 		}
 		tr.Pkgs = append(tr.Pkgs, p)
@@ -146,15 +180,17 @@ func genTree(t *rapid.T, pool []cand) Case {
 	// the planted rule: type k mapped at one non-root level
 	type level struct {
 		dir   string
-		iface bool
+		iface string // "" = the package's config
 	}
 	var levels []level
 	for i := range tr.Pkgs {
 		p := &tr.Pkgs[i]
 		if p.Listed {
-			levels = append(levels, level{p.Dir, false})
-			if p.IfListed {
-				levels = append(levels, level{p.Dir, true})
+			levels = append(levels, level{p.Dir, ""})
+			for _, in := range ifaceNames {
+				if *p.mode(in) != "" {
+					levels = append(levels, level{p.Dir, in})
+				}
 			}
 		}
 	}
@@ -163,8 +199,9 @@ func genTree(t *rapid.T, pool []cand) Case {
 	kt := target("planted", k)
 	planted := Rule{FromPkg: k.pkg, FromName: k.name, ToPkg: kt.pkg, ToName: kt.name}
 	lp := tr.pkg(lv.dir)
-	if lv.iface {
-		lp.SvcRules = append(dropKey(lp.SvcRules, ruleKey(planted)), planted)
+	if lv.iface != "" {
+		*lp.mode(lv.iface) = "rules"
+		*lp.irules(lv.iface) = append(dropKey(*lp.irules(lv.iface), ruleKey(planted)), planted)
 	} else {
 		lp.Rules = append(dropKey(lp.Rules, ruleKey(planted)), planted)
 	}
@@ -175,9 +212,9 @@ func genTree(t *rapid.T, pool []cand) Case {
 		if !tr.mocked(p) {
 			continue
 		}
-		for _, in := range []string{"Svc", "Other"} {
-			below := p.Dir == lv.dir && (!lv.iface || in == "Svc")
-			if !lv.iface && lp.Recursive && strings.HasPrefix(p.Dir, lp.Dir+"/") {
+		for _, in := range ifaceNames {
+			below := p.Dir == lv.dir && (lv.iface == "" || in == lv.iface)
+			if lv.iface == "" && lp.Recursive && strings.HasPrefix(p.Dir, lp.Dir+"/") {
 				below = true
 			}
 			if !below {
@@ -190,23 +227,51 @@ func genTree(t *rapid.T, pool []cand) Case {
 	// no level above the bystander maps k
 	c.Root = dropKey(c.Root, ruleKey(planted))
 	bp.Rules = dropKey(bp.Rules, ruleKey(planted))
-	if by.iface == "Svc" {
-		bp.SvcRules = dropKey(bp.SvcRules, ruleKey(planted))
-	}
+	*bp.irules(by.iface) = dropKey(*bp.irules(by.iface), ruleKey(planted))
 	if a := tr.recursiveAncestor(bp); a != nil {
 		a.Rules = dropKey(a.Rules, ruleKey(planted))
 	}
 	// both the bystander and a witness at the planted level mention k exactly
-	mention := func(p *TPkg, iface string) {
-		ms := p.Svc
-		if iface == "Other" {
-			ms = p.Other
-		}
-		v := progen.Var{Name: "pk", T: progen.N(k.pkg, k.name)}
+	mention := func(p *TPkg, iface string, name string, f cand) {
+		ms := p.meths(iface)
+		v := progen.Var{Name: name, T: progen.N(f.pkg, f.name)}
 		ms[0].Sig.Params = append([]progen.Var{v}, ms[0].Sig.Params...)
 	}
-	mention(bp, by.iface)
-	mention(lp, "Svc")
+	mention(bp, by.iface, "pk", k)
+	wi := lv.iface
+	if wi == "" {
+		wi = "Svc"
+	}
+	mention(lp, wi, "pk", k)
+	// a rule of a recursive package is also looked at from below: an interface that is named
+	// under interfaces: of a listed sub-package mentions a type the recursive package maps
+	type slot struct {
+		p     *TPkg
+		iface string
+	}
+	for i := range tr.Pkgs {
+		a := &tr.Pkgs[i]
+		if !a.Listed || !a.Recursive || len(a.Rules) == 0 {
+			continue
+		}
+		var slots []slot
+		for j := range tr.Pkgs {
+			q := &tr.Pkgs[j]
+			if q.Listed && tr.recursiveAncestor(q) == a {
+				for _, in := range ifaceNames {
+					if *q.mode(in) != "" {
+						slots = append(slots, slot{q, in})
+					}
+				}
+			}
+		}
+		if len(slots) == 0 || rapid.IntRange(0, 3).Draw(t, "ancestor-witness") == 0 {
+			continue
+		}
+		sl := rapid.SampledFrom(slots).Draw(t, "ancestor-witness-slot")
+		r := rapid.SampledFrom(a.Rules).Draw(t, "ancestor-witness-rule")
+		mention(sl.p, sl.iface, "pa", cand{r.FromPkg, r.FromName})
+	}
 	return c
 }
 
@@ -254,12 +319,22 @@ func (c Case) treeConfig(template, formatter, filename string, withRules bool, d
 		if len(pc) > 0 {
 			entry["config"] = pc
 		}
-		if p.IfListed {
-			var svc any
-			if m := rm(p.SvcRules); m != nil {
-				svc = map[string]any{"config": map[string]any{"replace-type": m}}
+		ifs := map[string]any{}
+		for _, in := range ifaceNames {
+			switch *p.mode(in) {
+			case "null":
+				ifs[in] = nil
+			case "config":
+				ifs[in] = map[string]any{"config": map[string]any{"structname": "Mock" + in}}
+			case "rules":
+				ifs[in] = nil
+				if m := rm(*p.irules(in)); m != nil {
+					ifs[in] = map[string]any{"config": map[string]any{"replace-type": m}}
+				}
 			}
-			entry["interfaces"] = map[string]any{"Svc": svc, "Other": nil}
+		}
+		if len(ifs) > 0 {
+			entry["interfaces"] = ifs
 		}
 		var e any = entry
 		if len(entry) == 0 {
@@ -321,8 +396,8 @@ func (c Case) role(p *TPkg) string {
 func (c Case) readings(p *TPkg, iface string) []reading {
 	tr := c.Tree
 	var own []namedLevel
-	if p.Listed && p.IfListed && iface == "Svc" {
-		own = append(own, namedLevel{"interface-config", p.SvcRules})
+	if p.Listed && *p.mode(iface) == "rules" {
+		own = append(own, namedLevel{"interface-config", *p.irules(iface)})
 	}
 	if p.Listed {
 		own = append(own, namedLevel{"package", p.Rules})
@@ -343,7 +418,6 @@ func (c Case) readings(p *TPkg, iface string) []reading {
 	return []reading{
 		mergeLevels("ancestor-before-root", with(anc, rootLv)),
 		mergeLevels("ancestor-after-root", with(rootLv, anc)),
-		mergeLevels("ancestor-ignored", with(rootLv)),
 	}
 }
 
@@ -425,21 +499,27 @@ func runTree(c Case) *vh.Violation {
 				allLevels[ruleKey(r)] = append(allLevels[ruleKey(r)], role)
 			}
 		}
-		if p.Listed && p.IfListed && len(p.SvcRules) > 0 {
-			lvClasses["tree:rules-at:interface/"+role] = true
-			for _, r := range p.SvcRules {
-				allLevels[ruleKey(r)] = append(allLevels[ruleKey(r)], "interface-of-"+role)
+		for _, in := range ifaceNames {
+			if !p.Listed {
+				break
+			}
+			md := *p.mode(in)
+			if md == "" {
+				md = "regex"
+			}
+			lvClasses["tree:interface-selected-by="+md+"/"+role] = true
+			if md == "rules" && len(*p.irules(in)) > 0 {
+				lvClasses["tree:rules-at:interface/"+role] = true
+				for _, r := range *p.irules(in) {
+					allLevels[ruleKey(r)] = append(allLevels[ruleKey(r)], "interface-of-"+role)
+				}
 			}
 		}
 		if !tr.mocked(p) {
 			continue
 		}
-		for _, in := range []string{"Svc", "Other"} {
-			ms := p.Svc
-			if in == "Other" {
-				ms = p.Other
-			}
-			mocks = append(mocks, mock{p, in, role, positions(ms), c.readings(p, in)})
+		for _, in := range ifaceNames {
+			mocks = append(mocks, mock{p, in, role, positions(p.meths(in)), c.readings(p, in)})
 		}
 	}
 	par := tr.pkg("par")
@@ -476,6 +556,22 @@ func runTree(c Case) *vh.Violation {
 			}
 			if n == len(m.rds) {
 				strictRepl = true
+				// a recursive package's rule that every reading demands in a mock of a
+				// sub-package that is listed itself, by the way the interface is selected
+				if m.role == "listed-sub-of-recursive" {
+					fromAnc := true
+					for _, r := range m.rds {
+						fromAnc = fromAnc && r.level[k] == "recursive-ancestor"
+					}
+					md := *m.p.mode(m.iface)
+					if md == "" {
+						md = "regex"
+					}
+					if lab := "tree:recursive-parent-rule-demanded-in-listed-sub/interface-selected-by=" + md; fromAnc && !seenCl[lab] {
+						seenCl[lab] = true
+						cl = append(cl, lab)
+					}
+				}
 			}
 			if n > 0 || len(allLevels[k]) == 0 {
 				continue
@@ -492,7 +588,7 @@ func runTree(c Case) *vh.Violation {
 			// listed sub-package without a table of its own, below a root that has a table:
 			// parent and root are both merged into that sub-package (counted once more when
 			// the bystander has no table at any of its own levels either)
-			own := len(m.p.Rules) > 0 || (m.iface == "Svc" && len(m.p.SvcRules) > 0)
+			own := len(m.p.Rules) > 0 || len(*m.p.irules(m.iface)) > 0
 			if len(c.Root) > 0 && tablelessSub {
 				for _, from := range allLevels[k] {
 					if from != "recursive-parent" {
@@ -567,6 +663,10 @@ func runTree(c Case) *vh.Violation {
 		return fail("exit/"+progen.NormDiag(progen.LastError(resB.Stderr)), resB, "", "mockery failed with valid replace-type rules: %s", progen.LastError(resB.Stderr))
 	}
 	obs := "--- run A\n" + rawA + "\n--- run B\n" + rawB
+	// what a listed sub-package takes from its recursive ancestor is one decision of the
+	// tool: one reading has to explain every mock of every such package of the run
+	runFits := map[string]bool{}
+	ambiguous := false
 	for _, m := range mocks {
 		strct := "Mock" + m.iface
 		who := m.p.Dir + "." + strct
@@ -632,18 +732,30 @@ func runTree(c Case) *vh.Violation {
 			}
 		}
 		if len(m.rds) > 1 {
-			var names []string
 			for i, f := range fits {
-				if f {
-					names = append(names, m.rds[i].name)
+				if _, seen := runFits[m.rds[i].name]; !seen {
+					runFits[m.rds[i].name] = true
+				}
+				if !f {
+					runFits[m.rds[i].name] = false
 				}
 			}
-			if len(names) == 0 {
-				return fail("inconsistent-inheritance/mock="+m.role, resB, obs, "%s: every position is admissible by itself, but no single reading of what a listed sub-package takes from its recursive ancestor explains the whole mock", who)
+			ambiguous = true
+		}
+	}
+	if ambiguous {
+		var names []string
+		for n, f := range runFits {
+			if f {
+				names = append(names, n)
 			}
-			if len(names) < len(m.rds) {
-				vh.DontCare("listed-sub-below-recursive-parent:" + strings.Join(names, "+"))
-			}
+		}
+		sort.Strings(names)
+		if len(names) == 0 {
+			return fail("inconsistent-inheritance/mock=listed-sub-of-recursive", resB, obs, "every position is admissible by itself, but no single order of precedence between the root and the recursive ancestor explains all mocks of the listed sub-packages")
+		}
+		if len(names) < len(runFits) {
+			vh.DontCare("listed-sub-below-recursive-parent:" + strings.Join(names, "+"))
 		}
 	}
 	// imports of each file of B = packages referenced by its strings
@@ -731,16 +843,24 @@ func reduce(c Case) []Case {
 		if len(p.Rules) > 0 {
 			edit(func(x *Case) { x.Tree.Pkgs[pi].Rules = nil })
 		}
-		if len(p.SvcRules) > 0 {
-			edit(func(x *Case) { x.Tree.Pkgs[pi].SvcRules = nil })
-		}
-		if p.IfListed {
-			edit(func(x *Case) { x.Tree.Pkgs[pi].IfListed, x.Tree.Pkgs[pi].SvcRules = false, nil })
+		for _, in := range ifaceNames {
+			in := in
+			// rules -> config -> null -> selected by the regex only
+			switch *p.mode(in) {
+			case "rules":
+				edit(func(x *Case) { q := &x.Tree.Pkgs[pi]; *q.mode(in), *q.irules(in) = "", nil })
+				edit(func(x *Case) { q := &x.Tree.Pkgs[pi]; *q.mode(in), *q.irules(in) = "null", nil })
+			case "config":
+				edit(func(x *Case) { *x.Tree.Pkgs[pi].mode(in) = "" })
+				edit(func(x *Case) { *x.Tree.Pkgs[pi].mode(in) = "null" })
+			case "null":
+				edit(func(x *Case) { *x.Tree.Pkgs[pi].mode(in) = "" })
+			}
 		}
 		if p.Listed && strings.HasPrefix(p.Dir, "par/") {
 			edit(func(x *Case) {
 				q := &x.Tree.Pkgs[pi]
-				q.Listed, q.Rules, q.IfListed, q.SvcRules = false, nil, false, nil
+				q.Listed, q.Rules, q.SvcMode, q.OtherMode, q.SvcRules, q.OtherRules = false, nil, "", "", nil, nil
 			})
 		}
 		if p.Recursive {
@@ -804,10 +924,13 @@ func reduce(c Case) []Case {
 				edit(func(x *Case) { x.Tree.Pkgs[pi].Rules = cut(x.Tree.Pkgs[pi].Rules, i) })
 			}
 		}
-		if len(p.SvcRules) > 1 {
-			for i := range p.SvcRules {
-				i := i
-				edit(func(x *Case) { x.Tree.Pkgs[pi].SvcRules = cut(x.Tree.Pkgs[pi].SvcRules, i) })
+		for _, in := range ifaceNames {
+			in := in
+			if rs := *p.irules(in); len(rs) > 1 {
+				for i := range rs {
+					i := i
+					edit(func(x *Case) { q := x.Tree.Pkgs[pi].irules(in); *q = cut(*q, i) })
+				}
 			}
 		}
 	}
